@@ -211,6 +211,7 @@ class TimeController(PersistentStateMixin):
             TimeControllerState: State information that can reproduce the current time flow progression of the system.
         """
         self._update_scaled_anchor_values()
+        self._update_anchor_values()
         return self.TimeControllerState(
             scaled_anchor_time=self._scaled_anchor_time,
             scaled_anchor_monotonic=self._scaled_anchor_monotonic,
